@@ -1378,14 +1378,33 @@ def _register_custom_property_hooks(converter: cattrs.Converter) -> cattrs.Conve
         special = lsp_types.is_special_property(cls, prop)
         return not special
 
+    def _admits_none(type_: Any) -> bool:
+        return type_ is type(None) or type(None) in getattr(type_, "__args__", ())
+
+    def _none_or_unstructured(type_: Any) -> Any:
+        def _unstructure(value: Any) -> Any:
+            return None if value is None else converter.unstructure(value, type_)
+
+        return _unstructure
+
     def _with_custom_unstructure(cls: type) -> Any:
-        attributes = {
-            a.name: cattrs.gen.override(
+        attributes = {}
+        for a in attrs.fields(cls):
+            extra = {}
+            if (
+                a.default is None
+                and not _omit(cls, a.name)
+                and not _admits_none(a.type)
+            ):
+                # An always written property left unset although its type has no
+                # null (the `result` of `InitializeResponse(id=1)`): write null
+                # instead of failing somewhere inside the absent value.
+                extra["unstruct_hook"] = _none_or_unstructured(a.type)
+            attributes[a.name] = cattrs.gen.override(
                 rename=_to_camel_case(a.name),
                 omit_if_default=_omit(cls, a.name),
+                **extra,
             )
-            for a in attrs.fields(cls)
-        }
         return cattrs.gen.make_dict_unstructure_fn(cls, converter, **attributes)  # type: ignore
 
     def _with_custom_structure(cls: type) -> Any:
